@@ -1,6 +1,7 @@
 package checks
 
 import (
+	"bytes"
 	"context"
 	"fmt"
 	"sync"
@@ -14,6 +15,7 @@ import (
 	"github.com/ipfs/go-datastore"
 	dssync "github.com/ipfs/go-datastore/sync"
 
+	"github.com/celestiaorg/celestia-node/share"
 	"github.com/celestiaorg/celestia-node/share/availability"
 	"github.com/celestiaorg/celestia-node/share/shwap/p2p/bitswap"
 	"github.com/celestiaorg/celestia-node/store"
@@ -145,6 +147,19 @@ func (c *c06) fakeExchangePhase() {
 			}
 		}
 	}
+	// headers that do not commit to one square (an incorrectly encoded block): only honest servers, every
+	// request type; a whole square handed back for such a header is unverified data
+	for rep := 0; rep < vkit.Scale(2, 8); rep++ {
+		for _, tamper := range []string{"col-swap", "low-row", "col-one"} {
+			for kind := c06Kind(0); kind < c06Kinds; kind++ {
+				cs := &c06BsCase{idx: idx, height: uint64(1500000 + idx), honest: true, wiring: "light", hdrTamper: tamper}
+				cs.rng = c.rng.SplitN("fakeex-case", idx)
+				cs.req = c06GenReq(cs.rng.Split("req"), kind, vkit.Pick(cs.rng.Split("sq"), c.sqs), idx+rep)
+				cases = append(cases, cs)
+				idx++
+			}
+		}
+	}
 	sem := make(chan struct{}, 16)
 	var wg sync.WaitGroup
 	for _, cs := range cases {
@@ -201,11 +216,48 @@ func (c *c06) runFakeExchangeCase(ctx context.Context, st *store.Store, cs *c06B
 		case <-callCtx.Done():
 		}
 	}()
-	hdr := vkit.MinimalHeader(cs.height, q.s.sq.Roots, time.Now())
+	roots := q.s.sq.Roots
+	if cs.hdrTamper != "" {
+		cp := share.AxisRoots{RowRoots: append([][]byte(nil), roots.RowRoots...), ColumnRoots: append([][]byte(nil), roots.ColumnRoots...)}
+		n := len(cp.RowRoots)
+		i, j := cs.rng.Intn(n), cs.rng.Intn(n)
+		if i == j {
+			j = (i + 1) % n
+		}
+		switch cs.hdrTamper {
+		case "col-swap":
+			if bytes.Equal(cp.ColumnRoots[i], cp.ColumnRoots[j]) {
+				return
+			}
+			cp.ColumnRoots[i], cp.ColumnRoots[j] = cp.ColumnRoots[j], cp.ColumnRoots[i]
+		case "low-row":
+			lo := n/2 + i%(n/2)
+			cp.RowRoots[lo] = append([]byte(nil), roots.ColumnRoots[(lo+1)%n]...)
+		default:
+			cp.ColumnRoots[i] = append([]byte(nil), roots.RowRoots[j]...)
+		}
+		roots = &cp
+	}
+	hdr := vkit.MinimalHeader(cs.height, roots, time.Now())
 	var res c06Result
 	if run.NoPanic(fmt.Sprintf("C06 %s %s:", name, c06KindNames[q.kind]), cs.desc(), func() {
 		res = c06Call(callCtx, g, q, hdr)
 	}) {
+		return
+	}
+	if cs.hdrTamper != "" {
+		run.Eval(1)
+		run.Count("fakeex/inconsistent-header/"+c06KindNames[q.kind], 1)
+		run.Distinct(fmt.Sprintf("fakeex|tamper|%d|%s", q.kind, cs.hdrTamper))
+		if q.kind == c06EDS {
+			if res.err == nil {
+				d := cs.desc()
+				d["header"] = "inconsistent data availability header: " + cs.hdrTamper
+				c.violation(name, q, "returns a whole square as a success for a header that does not commit to it (inconsistent data availability header)", d)
+			} else {
+				run.Count("fakeex/inconsistent-header/square-refused", 1)
+			}
+		}
 		return
 	}
 	run.Eval(1)
